@@ -773,7 +773,7 @@ pub fn gen_history(r: &mut Rng, tier: Tier, mode: Mode) -> Case {
     let steps = if r.chance(2, 3) { r.range(1, 10) } else { r.range(1, max_steps) };
     // a few histories grow unusually large diagrams
     let huge = r.chance(1, if tier == Tier::Thorough { 25 } else { 120 });
-    let node_cap = if huge { 48 } else { 12 };
+    let node_cap: usize = if huge { 48 } else { 12 };
     let steps = if huge { r.range(30, 90) } else { steps };
     let mut m = Model::default();
     let mut ops = vec![];
@@ -784,6 +784,41 @@ pub fn gen_history(r: &mut Rng, tier: Tier, mode: Mode) -> Case {
             (0..r.below(max + 1)).map(|_| r.below(n)).collect()
         }
     };
+    // a quarter of the unusually large histories start from a diagram past the usual power-of-two
+    // thresholds (64 / 128 / 256 nodes, hyperedges, pending unifications, interface wires)
+    let giant = huge && r.chance(1, 4);
+    let node_cap = if giant { 400 } else { node_cap };
+    if giant {
+        let k = *r.pick(&[70usize, 140, 270]);
+        for _ in 0..k {
+            let op = Op::NewNode(r.below(nl as usize) as L);
+            apply_model(&mut m, &op);
+            ops.push(op);
+        }
+        for _ in 0..*r.pick(&[8usize, 70, 140]) {
+            let op = Op::NewEdge { l: r.below(3) as L, s: pick_nodes(r, k, 3), t: pick_nodes(r, k, 3) };
+            apply_model(&mut m, &op);
+            ops.push(op);
+        }
+        for _ in 0..*r.pick(&[0usize, 20, 70, 140, 270]) {
+            let x = r.below(k);
+            let same: Vec<usize> = (0..k).filter(|v| m.nodes[*v] == m.nodes[x]).collect();
+            let y = if r.chance(9, 10) { *r.pick(&same) } else { r.below(k) };
+            let op = Op::Unify(x, y);
+            apply_model(&mut m, &op);
+            ops.push(op);
+        }
+        if r.chance(1, 2) {
+            let op = Op::SetSources((0..*r.pick(&[70usize, 140, 270])).map(|_| r.below(k)).collect());
+            apply_model(&mut m, &op);
+            ops.push(op);
+        }
+        if r.chance(1, 2) {
+            let op = Op::SetTargets((0..*r.pick(&[70usize, 140, 270])).map(|_| r.below(k)).collect());
+            apply_model(&mut m, &op);
+            ops.push(op);
+        }
+    }
     let mut repair_next = false;
     for _ in 0..steps {
         let n = m.nodes.len();
